@@ -243,6 +243,9 @@ def select_programs(names, tier, seed):
         # the y field of these is a step count, not a vertex: every count from an in-range source
         if parts[0].endswith("advance_finish") and parts[3] in ("in0", "inlast"):
             chosen.add(i)
+        # adversarial iterators: the y field is the id the iterator smuggles in behind an in-range x
+        if parts[0].endswith("evil_sources") and parts[3] in ("in0", "inlast"):
+            chosen.add(i)
     stride = 7
     off = seed % stride
     chosen.update(i for i in range(off, len(names), stride) if names[i].split("/")[0] not in GENERATED + ("rand_tree",))
